@@ -255,6 +255,7 @@ func (e *clEngine) swap() {
 		e.h.FundAcc(trader, sdk.NewCoins(sdk.NewCoin(inDenom, osmomath.NewIntFromBigInt(new(big.Int).Sub(need, have)))))
 	}
 	// --- execute ---
+	swapUnit := e.liqUnit()
 	feeAddr := p.GetSpreadRewardsAddress()
 	feeBefore := e.bal(feeAddr, inDenom)
 	tIn, tOut := e.bal(trader, inDenom), e.bal(trader, outDenom)
@@ -292,9 +293,11 @@ func (e *clEngine) swap() {
 	if zfo {
 		o.Count("swap.zfo")
 		e.feesPaid[0].Add(e.feesPaid[0], fee)
+		e.addDust(0, new(big.Int).Mul(big.NewInt(int64(len(ahead)+3)), swapUnit))
 	} else {
 		o.Count("swap.ofz")
 		e.feesPaid[1].Add(e.feesPaid[1], fee)
+		e.addDust(1, new(big.Int).Mul(big.NewInt(int64(len(ahead)+3)), swapUnit))
 	}
 	// positions in range during this swap (for the never-in-range check)
 	e.markInRange(sp0)
